@@ -37,6 +37,19 @@ def affine(t: T) -> Optional[Dict[object, Fraction]]:
     return {t.uid: Fraction(1)}
 
 
+def dot_parts(t: T):
+    """(a, b) of  a.dot(b) / a @ b / jnp.dot(a, b) / jnp.matmul(a, b)"""
+    t = strip_wrappers(t)
+    if t.op == "call":
+        a_ = m_arrcall(t, "dot", "matmul")
+        if a_ is not None and len(a_) == 2:
+            return strip_wrappers(a_[0]), strip_wrappers(a_[1])
+        if t.args[0].op == "attr" and t.args[0].args[1] == "dot" and len(call_parts(t)[1]) == 1:
+            return strip_wrappers(t.args[0].args[0]), strip_wrappers(call_parts(t)[1][0])
+    mm = m_binop(t, "@")
+    return (strip_wrappers(mm[0]), strip_wrappers(mm[1])) if mm is not None else None
+
+
 def same_affine(a: T, b: T) -> bool:
     fa, fb = affine(a), affine(b)
     return fa is not None and fb is not None and fa == fb
@@ -64,17 +77,14 @@ def check(ctx, rule: str = "CAP-1"):
     vhs = None
     if body.op == "tuple" and len(body.args) == 2:
         nc, y = strip_wrappers(body.args[0]), strip_wrappers(body.args[1])
-        if nc is y and nc.op == "call" and nc.args[0].op == "attr" and nc.args[0].args[1] == "dot" and \
-                strip_wrappers(call_parts(nc)[1][0]) is C:
-            ok_body = True
-            vhs = nc.args[0].args[0]
-        mm = m_binop(nc, "@")
-        if nc is y and mm is not None and strip_wrappers(mm[1]) is C:
-            ok_body, vhs = True, mm[0]
+        dp = dot_parts(nc)
+        if nc is y and dp is not None and dp[1] is C:
+            ok_body, vhs = True, dp[0]
     ctx.ob(rule, f"{q}: scan step k emits vhs applied to the previous output (output k is vhs^(k+1) w)", ok_body,
            "carry <- vhs . carry; y = carry" if ok_body else show(body, maxdepth=3)[:100], fi)
     ys = getitem(scans[0], const(1))
-    comps = [c for c in subterms(R) if c.op == "comp"]
+    # the summed terms: a comprehension  [ys[n] / f(n) for n in range(..)]  or a list filled by append in a for loop
+    comps = [c for c in subterms(R) if c.op == "comp"] + [c for c in subterms(R) if c.op == "append"]
     elems = []
     for c in comps:
         el = c.args[1]
@@ -118,8 +128,7 @@ def check(ctx, rule: str = "CAP-1"):
         ok0 = len(other) == 1 and strip_wrappers(other[0]) is strip_wrappers(init)
     ctx.ob(rule, f"{q}: the zeroth-order term is the walker the powers were generated from", ok0,
            "walker + sum of higher orders" if ok0 else "the sum is not added to the scan's initial walker", fi)
-    half = R.op == "call" and R.args[0].op == "attr" and R.args[0].args[1] == "dot" and \
-        strip_wrappers(init).op == "call" and strip_wrappers(init).args[0].op == "attr" and \
-        strip_wrappers(init).args[0].args[0] is R.args[0].args[0]
+    dr, di = dot_parts(R), dot_parts(init)
+    half = dr is not None and di is not None and dr[0] is di[0]
     ctx.ob(rule, f"{q}: the same one-body half step is applied before and after the two-body factor", half,
            "exp_h1 . (1 + ...) . exp_h1 . w" if half else show(R, maxdepth=2)[:80], fi)
